@@ -57,6 +57,26 @@ def ips_write_block_exact_contract(w, block, addr):
               + le.be_bytes(off + 2 * M, 3) + le.be_bytes(1, 2) + block[2 * M:n])
 
 
+def record(off, data):
+    return le.be_bytes(off, 3) + le.be_bytes(len(data), 2) + data
+
+
+def ips_sequence_contract(f, copier, a, addr_a, b, addr_b):
+    """A writer built by the real constructor, then the writes (A at X), (B at Y), (A at X) again: each write appends its own record, in write
+    order, whatever was written before (a repeated or overlapping write is not merged, reordered or dropped -- the last write wins when the
+    file is applied)."""
+    w = IPSWriter(f, copier)
+    log = f.written
+    d = 0x200 if copier else 0
+    assume(0 <= addr_a + d and addr_a + d + len(a) < EOF_OFFSET and 0 <= addr_b + d and addr_b + d + len(b) < EOF_OFFSET)
+    w.begin()
+    w.write_block(a, addr_a)
+    w.write_block(b, addr_b)
+    w.write_block(a, addr_a)
+    w.end()
+    check("every_write_is_a_record_in_write_order", flat(log) == b"PATCH" + record(addr_a + d, a) + record(addr_b + d, b) + record(addr_a + d, a) + b"EOF")
+
+
 def ips_write_block_any_length_contract(w, block, addr):
     """write_block for any length: loop contract (vf/props/C11.py): invariant block_address == addr + k, 0 <= k <= len;
     step: one well-formed record (1 <= n <= 65535 data bytes = block[k:k+n]) at offset addr + k (+0x200), k advances by n;
